@@ -59,6 +59,10 @@ def main():
     if r2.returncode != 0:
         print('REJECTED %s: demonstration does not pass without the change: %s' % (sid, r2.stdout[-400:])); return 1
     d = os.path.join(VERIF, 'seeded', sid)
+    if os.path.isdir(d) and open(os.path.join(d, 'patch.diff')).read() != open(patch).read():
+        # never overwrite a stored change that happens to have the same name
+        sid += '_2'
+        d = os.path.join(VERIF, 'seeded', sid)
     os.makedirs(d, exist_ok=True)
     shutil.copy(patch, os.path.join(d, 'patch.diff'))
     shutil.copy(demo, os.path.join(d, 'demo.rs'))
